@@ -1,6 +1,8 @@
 SPECIFICATION Spec
 CONSTANTS
-  MaxOps = 4
+  MaxOps = 0
+  MaxLevel = 5
+  KeepLast = TRUE
   Record = FALSE
   EmitBadOnly = FALSE
   Interferer = "ub"
